@@ -82,6 +82,11 @@ pub struct AstLowering {
     /// Newtype -> chosen validated constructor method name (e.g. "from_underlying", "from_str"),
     /// used for checked construction lowering of `T(x)` at call sites.
     pub(super) newtype_checked_ctor: HashMap<String, String>,
+    /// (type name, method name) -> parameter names in declaration order (receiver excluded); used to put the named
+    /// arguments of a method call into declaration order, as is done for free functions.
+    pub(super) method_param_names: HashMap<(String, String), Vec<String>>,
+    /// class name -> parent class name (for looking up inherited methods)
+    pub(super) class_parents: HashMap<String, String>,
     /// When lowering methods inside an impl block, this tracks the current target type name.
     /// Used to avoid rewriting `T(x)` inside `impl T` bodies (e.g. inside `T.from_underlying`).
     pub(super) current_impl_type: Option<String>,
@@ -183,6 +188,8 @@ impl AstLowering {
             trait_decls: HashMap::new(),
             type_info: None,
             newtype_checked_ctor: HashMap::new(),
+            method_param_names: HashMap::new(),
+            class_parents: HashMap::new(),
             current_impl_type: None,
         }
     }
@@ -194,9 +201,47 @@ impl AstLowering {
         s
     }
 
+    /// Record the parameter names of every method declared in `program` (models, classes, newtypes, traits, enums).
+    fn register_method_signatures(&mut self, program: &ast::Program) {
+        for decl in &program.declarations {
+            let (owner, methods): (&str, &[ast::Spanned<ast::MethodDecl>]) = match &decl.node {
+                ast::Declaration::Model(m) => (m.name.as_str(), &m.methods),
+                ast::Declaration::Class(c) => {
+                    if let Some(parent) = &c.extends {
+                        self.class_parents.entry(c.name.clone()).or_insert_with(|| parent.clone());
+                    }
+                    (c.name.as_str(), &c.methods)
+                }
+                ast::Declaration::Newtype(n) => (n.name.as_str(), &n.methods),
+                ast::Declaration::Trait(t) => (t.name.as_str(), &t.methods),
+                _ => continue,
+            };
+            for method in methods {
+                let names: Vec<String> = method.node.params.iter().map(|p| p.node.name.clone()).collect();
+                self.method_param_names
+                    .entry((owner.to_string(), method.node.name.clone()))
+                    .or_insert(names);
+            }
+        }
+    }
+
+    /// Parameter names of `type_name.method`, looking through parent classes.
+    pub(super) fn method_params_of(&self, type_name: &str, method: &str) -> Option<&Vec<String>> {
+        let mut current = type_name.to_string();
+        for _ in 0..64 {
+            if let Some(names) = self.method_param_names.get(&(current.clone(), method.to_string())) {
+                return Some(names);
+            }
+            current = self.class_parents.get(&current)?.clone();
+        }
+        None
+    }
+
     /// Make the validation hooks of the newtypes declared in an imported module known to this lowering (multi-file
     /// projects): `T(x)` written in a module that imports `T` must go through `T`'s hook exactly as in `T`'s own module.
+    /// The method signatures of the imported types are recorded as well.
     pub fn register_imported_newtypes(&mut self, imported: &ast::Program) {
+        self.register_method_signatures(imported);
         for decl in &imported.declarations {
             if let ast::Declaration::Newtype(ref n) = decl.node {
                 if let Some(ctor) = Self::select_newtype_checked_ctor(n) {
@@ -230,6 +275,15 @@ impl AstLowering {
     pub fn lower_program(&mut self, program: &ast::Program) -> Result<IrProgram, LoweringErrors> {
         let mut ir_program = IrProgram::new();
         let mut errors: Vec<LoweringError> = Vec::new();
+
+        // Method signatures of this file win over imported ones of the same name.
+        {
+            let imported = std::mem::take(&mut self.method_param_names);
+            self.register_method_signatures(program);
+            for (key, names) in imported {
+                self.method_param_names.entry(key).or_insert(names);
+            }
+        }
 
         // First pass: collect class declarations, trait decls, and newtype ctor selection.
         for decl in &program.declarations {
